@@ -12,7 +12,7 @@ INV_C17 = ['TypeOK', 'NeverFailsModuloF9', 'NoEmptyBatch', 'FairPass', 'MaxFirst
 FLAGS = {
   'C02': {'sizeexact', 'unsorted', 'notdrained', 'drainraised'},      # a drain that raises after popping loses its batch
   'C10': {'bound', 'sizeexact', 'f1', 'notdrained'},
-  'C17': {'storeraised', 'drainraised', 'f9', 'emptybatch', 'maxfirst', 'fairpass', 'lag', 'chosestale', 'notdrained', 'f1'},
+  'C17': {'storeraised', 'drainraised', 'f9', 'emptybatch', 'maxfirst', 'fairpass', 'lag', 'lagstarved', 'chosestale', 'notdrained', 'f1'},
 }
 WHAT = {
   'f1': 'a refused store of a not-yet-cached metric leaves an empty per-metric entry: the metric count changes',
@@ -25,6 +25,7 @@ WHAT = {
   'maxfirst': 'max/bucketmax chose a metric that does not hold the maximum number of datapoints',
   'fairpass': 'a metric was drained a second time before every metric present at the start of the pass was drained',
   'lag': 'timesorted chose a metric whose oldest datapoint is not older than MIN_TIMESTAMP_LAG',
+  'lagstarved': 'timesorted chose nothing although a metric holds a datapoint older than MIN_TIMESTAMP_LAG: due metrics are not drained',
   'chosestale': 'the strategy chose a metric that is not in the cache',
   'storeraised': 'store() raised an exception',
   'drainraised': 'drain_metric() raised an exception',
